@@ -153,6 +153,34 @@ def build(S, tier):
         clean = isinstance(ctx.attrs["_added_indices"], list) and not ctx.attrs["_added_indices"] and isinstance(ctx.attrs["_deleted_indices"], list) and not ctx.attrs["_deleted_indices"] and ctx.attrs["particle_delta"] == 0
         S.prove(f"{label}#ensures.bookkeeping_reset@{i}", clean, kind="ensures")
 
+    # the same leaf registered on its own AND inside a registered composite (or in two composites)
+    def run_save_shared(I):
+        atoms, calc, oracle, n = install(I)
+        sim = I.call(I.get_class(GC), [atoms], {"seed": 1, "max_cycles": 1, "number_of_exchange_particles": I.path.fresh("N0", "int"), "exchange_atoms": AtomsHeap(I, n=1, tag="X")})
+        log = []
+        a, b = LabelProbe("a", log), LabelProbe("b", log)
+        comp = I.call(I.get_class("quansino.moves.composite.CompositeMove"), [[a, b]], {})
+        MSt = I.get_class("quansino.utils.moves.MoveStorage")
+        for nm, mv in (("own", a), ("composite", comp)):
+            sim.attrs["moves"][nm] = I.call(MSt, [], {"move": mv, "criteria": ContractCriteria(), "interval": 1, "probability": 1, "minimum_count": 0})
+        ctx = sim.attrs["context"]
+        ctx.attrs["_added_indices"], ctx.attrs["_deleted_indices"] = SArr.base(I, "added", I.path.fresh("na", "int"), (), "int"), SArr.base(I, "deleted", I.path.fresh("nd", "int"), (), "int")
+        ctx.attrs["particle_delta"] = I.path.fresh("particle_delta", "int")
+        I.call(I.getattr(sim, "save_state"), [], {})
+        return dict(log=log)
+
+    label2 = GC + ".save_state[leaf also inside a registered composite]"
+    for i, p in enumerate(S.explore(run_save_shared, label2)):
+        adopt_filtered(S, p, prefix=label2 + ":")
+        if p.status == "unsupported":
+            continue
+        if p.status != "return":
+            S.prove(f"{label2}#noraise@{i}", False, kind="noraise", why=f"raises {p.exc!r}")
+            continue
+        names = sorted(e[0] for e in p.value["log"])
+        S.prove(f"{label2}#ensures.every_distinct_leaf_notified_exactly_once@{i}", names == ["a", "b"], kind="ensures",
+                why=f"notifications {names}: a label-bearing move notified twice appends the new labels twice and is longer than the atoms from then on")
+
     # ------------------------------------------------------------------ (b) accepted exchange trials through the real code
     def make_gc(I, composite=False):
         atoms, calc, oracle, n = install(I)
